@@ -39,15 +39,8 @@ func (rn *runner) do(sc scenario, tie *lib.Tie) {
 	if rn.rng != nil && r.Variant != "waste" {
 		sc.NInit = pickInit(rn.rng, len(sc.IDs))
 	}
-	if sc.Icpt != "" && sc.NInit > 0 {
-		// NewCollection does not pass the ids of initial records through the interceptor: they are configured in
-		// their normalised spelling (props/C15.json, assumptions)
-		ids := append([]string(nil), sc.IDs...)
-		for i := 0; i < sc.NInit; i++ {
-			ids[i] = icptFn(sc.Icpt)(ids[i])
-		}
-		sc.IDs = ids
-	}
+	// (initial records are configured in the spelling drawn: since 215ba16 NewCollection keeps them under the
+	// interceptor's image of their id, like every other creation route)
 	res, err := sc.run()
 	if err != nil {
 		rn.mon.Error = err.Error()
@@ -57,6 +50,9 @@ func (rn *runner) do(sc scenario, tie *lib.Tie) {
 	for _, p := range res.passes {
 		ncalls += len(p)
 	}
+	if res.pre != nil {
+		ncalls += len(res.pre.calls)
+	}
 	nontrivial := ncalls > 1 || len(res.coll) > 0
 	key := fmt.Sprintf("%s|%d|%v|%s|%v|%v|%v|%v|%d|%d|%s|%v", sc.RPC, len(sc.IDs), sc.Sizes, sc.Token, sc.Delete, sc.Mask, sc.Ops, sc.Warm, sc.Passes, sc.NInit, sc.Icpt, sc.Inflight)
 	if sc.Icpt != "" {
@@ -64,7 +60,11 @@ func (rn *runner) do(sc scenario, tie *lib.Tie) {
 		tie.Count("interceptor:" + sc.Icpt)
 	}
 	if sc.Inflight != nil {
-		tie.Count("inflight:" + sc.Inflight.Kind + ":" + res.inflight)
+		if sc.Inflight.Accept {
+			tie.Count("inflight-accepting:" + sc.Inflight.Kind + ":" + res.inflight)
+		} else {
+			tie.Count("inflight:" + sc.Inflight.Kind + ":" + res.inflight)
+		}
 	}
 	rn.mon.Eval(key, nontrivial, sc.summary())
 	rn.mon.Count("class:" + sc.Class)
@@ -119,6 +119,11 @@ func (rn *runner) do(sc scenario, tie *lib.Tie) {
 	}
 	for _, c := range res.warm {
 		count(c)
+	}
+	if res.pre != nil {
+		for _, c := range res.pre.calls {
+			count(c)
+		}
 	}
 	for _, p := range res.passes {
 		for _, c := range p {
@@ -281,7 +286,9 @@ func opAlphabet(rp rpc, ids []string, foreign []string) []storeOp {
 				storeOp{Kind: "update", ID: id, Upsert: true},
 				storeOp{Kind: "update", ID: id, Upsert: true, Mask: "nokey"},
 				storeOp{Kind: "update", ID: id, Upsert: true, Mask: "key"},
-				storeOp{Kind: "update", ID: id, Mask: "nokey"})
+				storeOp{Kind: "update", ID: id, Upsert: true, Mask: "empty"},
+				storeOp{Kind: "update", ID: id, Mask: "nokey"},
+				storeOp{Kind: "update", ID: id, Mask: "empty"})
 		}
 		if idArg {
 			ops = append(ops, storeOp{Kind: "update", ID: id, Alt: true}, storeOp{Kind: "update", ID: id, Alt: true, Upsert: true})
@@ -304,7 +311,7 @@ func opAlphabet(rp rpc, ids []string, foreign []string) []storeOp {
 			ops = append(ops, storeOp{Kind: "delete", ID: id, Via: "rpc"}, storeOp{Kind: "delete", ID: id, AllowMissing: true, Via: "rpc"})
 		}
 		if hasRPC[rp.Name] || rp.Name == "vending.ListInventory" {
-			for _, mk := range []string{"", "key", "nokey"} {
+			for _, mk := range []string{"", "key", "nokey", "empty"} {
 				ops = append(ops, storeOp{Kind: "update", ID: id, Mask: mk, Via: "rpc"})
 			}
 		}
@@ -399,7 +406,7 @@ func (rn *runner) smallLong() {
 					adds = append(adds, storeOp{Kind: "add", ID: id})
 				}
 				if rp.Upd != nil {
-					ups = append(ups, storeOp{Kind: "update", ID: id, Upsert: true, Mask: []string{"", "key", "nokey"}[i%3]})
+					ups = append(ups, storeOp{Kind: "update", ID: id, Upsert: true, Mask: []string{"", "key", "nokey", "empty"}[i%4]})
 				}
 			}
 			if adds != nil {
@@ -475,6 +482,8 @@ func (rn *runner) smallInflight() {
 					for _, t := range []string{"", "1", "2"} {
 						rn.do(scenario{RPC: rp.Name, IDs: []string{"r0", "r1", "r2"}[:n], Sizes: []int32{s}, Token: t, Passes: 2,
 							Inflight: &guardedWrite{Kind: "add", ID: "never-added"}, Class: "small-inflight"}, rn.small)
+						rn.do(scenario{RPC: rp.Name, IDs: []string{"r0", "r1", "r2"}[:n], Sizes: []int32{s}, Token: t, Passes: 2,
+							Inflight: &guardedWrite{Kind: "add", ID: "added-meanwhile", Accept: true}, Class: "small-inflight-accepted"}, rn.small)
 					}
 				}
 			}
@@ -491,6 +500,12 @@ func (rn *runner) smallInflight() {
 				w := w
 				for _, s := range []int32{1, 0} {
 					rn.do(scenario{RPC: rp.Name, IDs: ids, Sizes: []int32{s}, Passes: 2, Inflight: &w, Class: "small-inflight"}, rn.small)
+				}
+				// the same write ACCEPTED: listed while it is parked (contents before it), then paged after it completed
+				a := w
+				a.Accept = true
+				for _, s := range []int32{1, 0} {
+					rn.do(scenario{RPC: rp.Name, IDs: ids, Sizes: []int32{s}, Passes: 2, Inflight: &a, Class: "small-inflight-accepted"}, rn.small)
 				}
 			}
 		}
